@@ -7,6 +7,10 @@ use std::io::Write;
 mod common;
 use common::Emitter;
 mod c15;
+mod stages;
+mod store;
+mod tirgen;
+mod tirjson;
 
 fn usage() -> ! {
     eprintln!("usage: harness <property> [--seed N] [--n N] [--tier quick|thorough] [--replay FILE]");
@@ -69,6 +73,8 @@ fn main() {
 
     match prop.as_str() {
         "C15" => c15::run(&opts, &mut Emitter::new(&mut out, opts.only)),
+        "C06" => stages::run_c06(&opts, &mut Emitter::new(&mut out, opts.only)),
+        "C07" => stages::run_c07(&opts, &mut Emitter::new(&mut out, opts.only)),
         _ => usage(),
     }
 
